@@ -3,7 +3,8 @@
    Exact level (rational magnitudes, integer exponents, [good_table]);
    "within floating-point tolerance" is measured by the correspondence check. *)
 From Coq Require Import List ZArith QArith Qcanon String Bool.
-From NV Require Import Qty.Model Qty.Exec Qty.Proofs Qty.ConvProofs Qty.TableSem Qty.Good Qty.Demo.
+From NV Require Import Qty.Model Qty.Exec Qty.Proofs Qty.ConvProofs Qty.TableSem Qty.Good Qty.Demo
+                       Qty.Display Qty.DisplayProofs.
 Import ListNotations.
 Local Open Scope Qc_scope.
 
@@ -52,6 +53,20 @@ Proof.
 Qed.
 Print Assumptions C04_via.
 
+(* the TEXT the user sees after `a -> b` (any number type; Qty/Display.v is the port of
+   the Display impls of unit.rs / product.rs and of pretty_print_internal without the
+   numbers): b's unit written exactly as b's factor list renders (order, prefixes,
+   exponents), preceded by the `×` marker iff b's magnitude is not 1.  It depends on b
+   only, so in a chain `a -> b -> c` nothing of b's marker survives. *)
+Theorem C04_text :
+  forall (T : Type) (N : numops T) tbl res keys names a b q,
+    vm_convert N tbl res keys a b = Ok q ->
+    display_shape names q
+    = (if n_eqb N (q_val b) (n_one N) then display_unit names (q_unit b)
+       else "× " ++ display_unit names (q_unit b))%string.
+Proof. intros T N tbl res keys names a b q. exact (convert_text N tbl res keys names a b q). Qed.
+Print Assumptions C04_text.
+
 (* ---- non-vacuity on the demo table: 6 hours -> 45 min is displayed as 8 x (45 min),
    through the conversion path (different units, non-zero value) *)
 Example C04_nonvacuous :
@@ -73,4 +88,19 @@ Proof.
   eexists. eexists. split; [vm_compute; reflexivity|]. split; [vm_compute; reflexivity|].
   split; [intros H; apply (f_equal (fun q : Qc => Qnum q)) in H; vm_compute in H; discriminate
          | apply Qc_is_canon; vm_compute; reflexivity].
+Qed.
+
+(* the rendered text on the demo table: km/h, and the `×` form; a second conversion drops the marker *)
+Example C04_text_nonvacuous :
+  let names := [("m", true); ("s", true); ("g", true); ("in", false); ("ft", false); ("min", false); ("h", false)] in
+  display_unit names [up 0 3 1; up 6 0 (-1)] = "km/h"%string
+  /\ display_unit names [up 0 0 1; up 1 0 (-2); up 2 3 (-1)] = "m/(s²·kg)"%string
+  /\ (exists q r, vm_convert QcN demo_tbl D_res D_keys (qz 6 (u1 6)) (qz 45 (u1 5)) = Ok q
+                  /\ display_shape names q = "× min"%string
+                  /\ vm_convert QcN demo_tbl D_res D_keys q (qz 1 (u1 5)) = Ok r
+                  /\ display_shape names r = "min"%string /\ q_val r = Qc_of_Z 360).
+Proof.
+  simpl. split; [vm_compute; reflexivity|]. split; [vm_compute; reflexivity|].
+  eexists. eexists. split; [vm_compute; reflexivity|]. split; [vm_compute; reflexivity|].
+  split; [vm_compute; reflexivity|]. split; [vm_compute; reflexivity | apply Qc_is_canon; vm_compute; reflexivity].
 Qed.
